@@ -465,6 +465,12 @@ func init() {
 				// locks and updates; the node has no followers (its own log write is the only acknowledgement), or every
 				// database waits for one follower acknowledgement that never comes
 				{Name: "ack-required-requests", Cfg: cfg, Depth: d, Drain: true, DrainFor: 70 * sec, MaxStates: 400000, Alphabet: c03AckAlphabet()},
+				// acknowledgement-required requests queued on a counting key and granted while another holder stays (with
+				// and without the never-persist flag, which exempts a request from the acknowledgement wait)
+				{Name: "ack-required-waiters-on-semaphore", Cfg: cfg, Depth: d, Drain: true, DrainFor: 70 * sec, MaxStates: 400000, Alphabet: []SeqOp{
+					op(0, withEF(L(0, 1, 1, 0, 30, 1, 0), efZeroAof)), op(1, withEF(L(0, 1, 3, 0, 30, 1, 0), efZeroAof)),
+					op(1, withEF(withTF(L(0, 1, 4, 5, 30, 1, 0), tfAck), efNeverAof)), op(1, withTF(L(0, 1, 5, 5, 30, 1, 0), tfAck)),
+					op(0, U(0, 1, 1)), op(1, U(0, 1, 3)), tick(3 * sec)}},
 				{Name: "ack-required-requests-unacknowledged", Cfg: hapi.Config{FastKeys: 1, Concurrent: 1, MissingAcks: 1}, Depth: d, Drain: true, DrainFor: 70 * sec, MaxStates: 400000, Alphabet: c03AckAlphabet()},
 			}, Oracles: []SeqOracle{SeqOracleC03, OracleFullVsMem("C03")}}
 		},
